@@ -949,6 +949,9 @@ func (x *Exec) checkEvent(fr *Frame, st *State, kind string, ch ssa.Value, v Val
 	if kind == "send" {
 		st.ghost["$sent:"+tgt] = TTrue
 	}
+	if !x.inSelectEvent {
+		x.tokenEvent(st, st, kind, tgt, nil)
+	}
 }
 
 func (x *Exec) addInput(m ModelVar) {
